@@ -288,6 +288,14 @@ func (c *Trait) TTL(ctx context.Context) time.Duration {
 	return ttl
 }
 
+// entryRestored accounts for an entry that arrived through Restore: an entry with expiration in a cache
+// with UnlimitedTTL voids the proof of no expirations that lets the cleanup job skip its scan.
+func (c *Trait) entryRestored(expireAt int64) {
+	if expireAt != 0 && c.Config.TimeToLive == UnlimitedTTL && c.expirationsSet != nil {
+		atomic.AddInt64(c.expirationsSet, 1)
+	}
+}
+
 // NotifyWritten collects logs and metrics.
 func (c *Trait) NotifyWritten(ctx context.Context, key []byte, value interface{}, ttl time.Duration) {
 	if c.Log.logDebug != nil {
